@@ -515,6 +515,16 @@ pub fn run(ctx: &Ctx) -> CheckResult {
         let first = base.meta.get("first").and_then(|x| x.as_u64()).unwrap_or(0) as usize;
         let seed = rng::mix(ctx.seed, &base.name, 17);
         jobs.push(FaultJob { base: base.clone(), step: first + 1, space: FaultSpace { read_side: false, write_side: true, meta_side: true, budgets: if quick { Budgets::BoundariesPlus(10) } else { Budgets::BoundariesPlus(200) }, seed }, noise: true, max_variants: if quick { 150 } else { 0 } });
+        // the same with extract's progress lines going to a redirected stdout that can fail too (a full
+        // disk, a closed pipe): the images are the product, the lines are not -- extract must neither
+        // crash nor claim success with images missing
+        if base.name.starts_with("corpus:res/th12-embedded-image-source") || base.name.starts_with("generated-big") {
+            let mut b2 = base.clone();
+            b2.steps[first + 1].stdout_to = Some("progress.txt".into());
+            b2.meta["ignore_outputs"] = json!(["progress.txt"]);
+            b2.name = format!("{} [extract > progress.txt]", b2.name);
+            jobs.push(FaultJob { base: b2, step: first + 1, space: FaultSpace { read_side: false, write_side: true, meta_side: false, budgets: Budgets::Boundaries, seed }, noise: false, max_variants: if quick { 120 } else { 0 } });
+        }
         jobs.push(FaultJob { base, step: first + 2, space: FaultSpace { read_side: true, write_side: true, meta_side: true, budgets: Budgets::Boundaries, seed }, noise: true, max_variants: if quick { 160 } else { 0 } });
     }
     for c in cases.iter().filter(|c| c.oracle == "multisource" && !c.name.contains("broken-winner") && c.name.contains("\", \"")).take(if quick { 6 } else { 120 }) {
